@@ -278,3 +278,45 @@ func famNaN(tw *traceWriter, r *rand.Rand, n int) {
 }
 
 func init() { families["nan"] = famNaN }
+
+// C10: positions are rendered in decimal at every magnitude: long slices (20 elements) whose failing elements sit at
+// one- and two-digit positions, at the root, below a field and with struct elements; both modes
+func famLong(tw *traceWriter, r *rand.Rand, n int) {
+	i := 0
+	for _, shape := range []string{"root", "field", "structs"} {
+		for _, mode := range []string{"parse", "validate"} {
+			if n > 0 && i >= n {
+				return
+			}
+			elem := prim("int", false, None, None, []Test{{Kind: "gte", N: 2, Code: "gte"}}, nil)
+			vals := make([]*Input, 20)
+			for j := range vals {
+				v := 3
+				if j == 0 || (j >= 8 && j <= 17) || j == 19 {
+					v = 1 // fails gte 2
+				}
+				vals[j] = val(v)
+			}
+			var sch *Node
+			var in *Input
+			switch shape {
+			case "root":
+				sch, in = slice(elem, false, None, nil, nil), list(vals...)
+			case "field":
+				sch = strct([]Kid{{Key: "a", Node: slice(elem, false, None, nil, nil)}}, nil, nil)
+				in = mapIn(Ent{Key: "a", Val: list(vals...)})
+			case "structs":
+				ms := make([]*Input, len(vals))
+				for j, v := range vals {
+					ms[j] = mapIn(Ent{Key: "x", Val: v})
+				}
+				sch = strct([]Kid{{Key: "a", Node: slice(strct([]Kid{{Key: "x", Node: elem}}, nil, nil), false, None, nil, nil)}}, nil, nil)
+				in = mapIn(Ent{Key: "a", Val: list(ms...)})
+			}
+			tw.emitCase(&Case{ID: fmt.Sprintf("long%d", i), Mode: mode, Fe: "map", Schema: sch, Input: in}, "", true)
+			i++
+		}
+	}
+}
+
+func init() { families["long"] = famLong }
